@@ -52,3 +52,8 @@ func init() {
 	seed(Seed{Name: "outputchan-write-time-clock", Prop: "C18", Rule: "CLK-COMMITSTAMP", File: "distsys/resources/channels.go",
 		Old: "res.channel <- tla.WrapCausal(value.StripVClock(), iface.GetVClockSink().GetVClock())", New: "res.channel <- value", Expect: "OutputChan.Commit"})
 }
+
+func init() {
+	seed(Seed{Name: "hint-is-committed-value", Prop: "C18", Rule: "HINT-PAIR", File: "distsys/archetyperesource.go",
+		Old: "iface.oldValueHint(res.value)", New: "iface.oldValueHint(res.oldValue)", Expect: "hint-source"})
+}
